@@ -85,7 +85,6 @@ Definition app_arrs (ar : list ((Z * Z) * list (option Z))) (app : Z) : list (Z 
   flat_map (fun x => if fst (fst x) =? app then [(snd (fst x), snd x)] else []) ar.
 
 Inductive err :=
-| EUnknownSub        (* ValueError: Unknown subroutine with ID n *)
 | ETypeMismatch      (* K response for a request without qubit array *)
 | EVirtNone          (* RuntimeError: virtual address is None *)
 | EIndex             (* IndexError *)
@@ -117,9 +116,6 @@ Fixpoint dec_first (f : req -> bool) (l : list req) : list req :=
       else q :: dec_first f t
   end.
 
-Definition alive (s : state) (sid : Z) : bool :=
-  match aget Z.eqb sid (subs s) with Some _ => true | None => false end.
-
 Inductive hres := Handled (s' : state) | NotNow | HFault (e : err).
 
 Definition with_handled (s : state) (rq : list req) (ar : list ((Z * Z) * list (option Z)))
@@ -132,7 +128,7 @@ Definition try_handle (s : state) (r : resp) : hres :=
   | None => NotNow                                          (* _extract_epr_info returns None *)
   | Some q =>
       let k := (q_tot q - q_left q)%nat in                  (* pair_index *)
-      if negb (alive s (q_sid q)) then HFault EUnknownSub else
+      (* the application is recorded in the request: the issuing subroutine may have ended *)
       let app := q_app q in
       let finish (u : list (Z * list (option Z))) (us : list (Z * Z)) : hres :=
           match aget pair_eqb (app, q_res q) (arrs s) with
